@@ -20,6 +20,7 @@ package client
 import (
 	"context"
 
+	"seata.apache.org/seata-go/pkg/protocol/branch"
 	"seata.apache.org/seata-go/pkg/protocol/message"
 	"seata.apache.org/seata-go/pkg/util/log"
 
@@ -50,20 +51,22 @@ func (f *rmBranchCommitProcessor) Process(ctx context.Context, rpcMessage messag
 	}
 
 	status, err := rm.GetRmCacheInstance().GetResourceManager(request.BranchType).BranchCommit(ctx, branchResource)
-	if err != nil {
-		log.Errorf("branch commit error: %s", err.Error())
-		return err
-	}
-	log.Infof("branch commit success: xid %s, branchID %d, resourceID %s, applicationData %s", xid, branchID, resourceID, applicationData)
-
 	var (
 		resultCode message.ResultCode
 		errMsg     string
 	)
+	processErr := err
 	if err != nil {
+		// the failure is reported to the tc server (which retries) rather than
+		// left to its request timeout
+		log.Errorf("branch commit error: %s", err.Error())
 		resultCode = message.ResultCodeFailed
 		errMsg = err.Error()
+		if status != branch.BranchStatusPhasetwoCommitFailedUnretryable {
+			status = branch.BranchStatusPhasetwoCommitFailedRetryable
+		}
 	} else {
+		log.Infof("branch commit success: xid %s, branchID %d, resourceID %s, applicationData %s", xid, branchID, resourceID, applicationData)
 		resultCode = message.ResultCodeSuccess
 	}
 
@@ -88,5 +91,5 @@ func (f *rmBranchCommitProcessor) Process(ctx context.Context, rpcMessage messag
 		return err
 	}
 	log.Infof("send branch commit success: xid %v, branchID %v, resourceID %v, applicationData %v", xid, branchID, resourceID, applicationData)
-	return nil
+	return processErr
 }
